@@ -338,8 +338,14 @@ func init() {
 			transfer := tx("app_stake", "P1", "app", "NEW", "value", "0", "chains", "")
 			imenu := []BlockSpec{blk(transfer, tx("app_unstake", "P1")), blk(tx("app_unstake", "P1"), tx("app_stake", "P1", "value", "3000000", "chains", "0001")),
 				blk(tx("node_unstake", "N2"), tx("node_stake", "N2", "node", "N2", "value", "3000000", "output", "N2", "chains", "0002")), {}}
+			// (the ante handler looks the signer's application up for transfer messages: a CheckTx or simulation of a
+			// transfer between two delivered transfers of the same application reads it through the node-local cache)
+			transfer2 := tx("app_stake", "P1", "app", "A2", "value", "0", "chains", "")
+			transfer3 := TxSpec{Kind: "app_stake", Signer: "P1", Args: map[string]string{"app": "A3", "value": "0", "chains": ""}}
+			imenu = append(imenu, blk(transfer, transfer2), blk(tx("app_unstake", "P1"), transfer2))
 			iprobes := []Probe{{Kind: "q_app", Args: map[string]string{"height": "0"}}, {Kind: "q_app", Args: map[string]string{"height": "-1"}}, {Kind: "q_node2", Args: map[string]string{"height": "0"}},
-				{Kind: "checktx", Tx: &TxSpec{Kind: "app_unstake", Signer: "P1"}}, {Kind: "simulate", Tx: &TxSpec{Kind: "app_unstake", Signer: "P1"}}}
+				{Kind: "checktx", Tx: &TxSpec{Kind: "app_unstake", Signer: "P1"}}, {Kind: "simulate", Tx: &TxSpec{Kind: "app_unstake", Signer: "P1"}},
+				{Kind: "checktx", Tx: &transfer3}, {Kind: "simulate", Tx: &transfer3}}
 			icfg := &chainDiffCfg{Name: "readonly-inblock", Env: defaultEnv(), Menu: imenu, Depth: 2, Probes: iprobes, Phases: []string{"tx0"}, MaxIns: 1}
 			chainDiffExplore(c, icfg)
 			// the dispatch query fills the session cache that claim validation reads: histories in which a servicer is
@@ -372,7 +378,7 @@ func c13Probes() []Probe {
 }
 
 func init() {
-	register(&Check{ID: "C13", QuickBud: 110 * time.Second, ThorBud: 30 * time.Minute,
+	register(&Check{ID: "C13", QuickBud: 150 * time.Second, ThorBud: 30 * time.Minute,
 		Run: func(c *ev.Ctx) {
 			c.Rule = "differential explicit-state search on the real PocketCoreApp: every base history of D blocks over a menu in which state changes follow reads (application edit-stake / transfer / unstake, node edit-stake / unstake, each also with a node restart before the block so that the object caches are cold) x every position x {before BeginBlock, after Commit} x every off-chain read (application / node / account queries at the latest and at older heights); the replica that served the call must report the same per-transaction results, validator updates and app hash for every block as the silent replica. Non-trivial = distinct (history, insertion)"
 			c.Assume("a second search covers the servicer-side calls: dispatch and relay (which fill the session cache that claim validation consults) inserted into histories of jailing, edit-stake and claims")
@@ -408,6 +414,12 @@ func init() {
 			env1.SessionNodeCount = 1
 			s1cfg := &chainDiffCfg{Name: "offchain-sessions-one-seat", Env: env1, Menu: smenu[:4], Depth: 4, Probes: append(append([]Probe{}, sprobes[:1]...), Probe{Kind: "q_dispatch", Args: map[string]string{"height": "0"}}), Phases: []string{"pre", "post"}, MaxIns: 1}
 			chainDiffExplore(c, s1cfg)
+			// a young chain (heights 2..6): the height-gated branches of edit-stake, jailing and unstaking that mainnet
+			// left behind long ago are still what a new network executes
+			envY := env
+			envY.BaseHeight, envY.FeatureHeight, envY.Genesis, envY.Setup = 0, 70000, "legacy-nodes", nil
+			ycfg := &chainDiffCfg{Name: "offchain-sessions-young-chain", Env: envY, Menu: []BlockSpec{smenu[0], smenu[2], smenu[3], blk(tx("node_stake", "N2", "node", "N2", "value", "2000000", "chains", "0002", "legacy", "1"))}, Depth: 4, Probes: sprobes[:1], Phases: []string{"pre", "post"}, MaxIns: 1}
+			chainDiffExplore(c, ycfg)
 			getPool().Close()
 		},
 		Replay: diffReplayFn,
